@@ -69,12 +69,21 @@ class TelegramQueue:
             if isinstance(
                 telegram.destination_address, GroupAddress | InternalGroupAddress
             ):
-                for address_filter in self.address_filters:
-                    if address_filter.match(telegram.destination_address):
-                        return True
+                # explicit addresses first - an address filter may raise (pattern not
+                # fitting the address format); that must not hide a matching address
                 for group_address in self.group_addresses:
                     if telegram.destination_address == group_address:
                         return True
+                filter_error: Exception | None = None
+                for address_filter in self.address_filters:
+                    try:
+                        if address_filter.match(telegram.destination_address):
+                            return True
+                    except ConnectionError as err:
+                        # this filter can not be applied - the next one may match
+                        filter_error = err
+                if filter_error is not None:
+                    raise filter_error
             return False
 
     __slots__ = (
